@@ -35,7 +35,7 @@ import (
 
 func cases(tier string) int {
 	if tier == "thorough" {
-		return 30000
+		return 150000
 	}
 	return 2400
 }
